@@ -17,6 +17,13 @@ Src_q2(n) == IF n = "F"
                   \cup {Ok(<<Mod("A", <<>>, "ok"), Mod("B", <<"A">>, s)>>) : s \in {"ok", "symerr"}}
              ELSE {A("nf"), A("parseerr")} \cup {Ok(<<Mod(n, i, "ok")>>) : i \in {<<>>, <<"F">>}}
 
+\* --- slice q6: several modules per file, each with its own imports
+Req_q6 == {<<"F">>, <<"B", "F">>}
+Src_q6(n) == IF n = "F"
+             THEN {A("nf"), A("err")}
+                  \cup {Ok(<<Mod("A", i, "ok"), Mod("A2", j, s)>>) : i \in {<<>>, <<"B">>}, j \in {<<>>, <<"A">>, <<"C">>}, s \in {"ok", "symerr"}}
+             ELSE {A("nf")} \cup {Ok(<<Mod(n, <<>>, "ok")>>)}
+
 \* --- slice t1 (thorough): three names
 Imp3 == {<<>>, <<"A">>, <<"B">>, <<"C">>, <<"B", "C">>, <<"C", "A">>}
 Req_t1 == {<<"A">>, <<"A", "B">>, <<"C", "A">>}
